@@ -966,7 +966,7 @@ func init() {
 	Register(&Rule{
 		ID:    "R-TAGUSE",
 		Doc:   "proto.fixedCodecOf maps (Fixed32, uint32|int32|float32) and (Fixed64, uint64|int64|float64) to the 4- and 8-byte codecs (joint dataflow of the possible wire types and kinds to each returned codec); structCodecOf consults it for the field's base kind and for the element kind of a repeated field; the repeated-field compiler is only reached when the field's own kind is Slice",
-		Props: []string{"C12", "C03"},
+		Props: []string{"C12", "C03", "C07"},
 		Min:   map[string]int{"C12": 8, "C03": 8},
 		Run:   runTagUse,
 	})
@@ -1117,13 +1117,13 @@ func runTagUse(c *core.Ctx) []core.Obligation {
 			}
 		}
 		if own {
-			b.addP(props, core.Discharged, key, c.InstrPos(ci), "sliceCodecOf is reached only where f.Type.Kind() == Slice")
+			b.addP(append(append([]string{}, props...), "C07"), core.Discharged, key, c.InstrPos(ci), "sliceCodecOf is reached only where f.Type.Kind() == Slice")
 		} else {
-			b.addP(props, core.Violation, key, c.InstrPos(ci), "sliceCodecOf is reached on the strength of the base kind alone: a field of type *[]T (a pointer) is compiled as a repeated field and its memory read as a slice header (SIGSEGV)")
+			b.addP(append(append([]string{}, props...), "C07"), core.Violation, key, c.InstrPos(ci), "sliceCodecOf is reached on the strength of the base kind alone: a field of type *[]T (a pointer) is compiled as a repeated field and its memory read as a slice header (SIGSEGV)")
 		}
 	}
 	if len(sliceCalls) == 0 {
-		b.addP(props, core.Undecided, "taguse:slice-own-kind", c.FuncPos(sc), "no call of sliceCodecOf found in structCodecOf")
+		b.addP(append(append([]string{}, props...), "C07"), core.Undecided, "taguse:slice-own-kind", c.FuncPos(sc), "no call of sliceCodecOf found in structCodecOf")
 	}
 	return b.out
 }
